@@ -87,8 +87,11 @@ def altitude_from_pressure_map_v0(map: npt.ArrayLike):
     longitudes = np.linspace(-180, 180, map.shape[1])
 
     def f(lat: float, long: float, *args, **kwargs) -> np.single:
-        i = np.searchsorted(latitudes, lat)
-        j = np.searchsorted(longitudes, lat)
+        # lat, long arrive in radians; the map grid is in degrees, longitude in [-180, 180].
+        lat_deg = np.degrees(lat)
+        long_deg = (np.degrees(long) + 180.0) % 360.0 - 180.0
+        i = np.minimum(np.searchsorted(latitudes, lat_deg), latitudes.size - 1)
+        j = np.minimum(np.searchsorted(longitudes, long_deg), longitudes.size - 1)
         pressure: np.single = map[i, j]
         return atm.us_std_atm_altitude_from_pressure(pressure)
 
